@@ -11,3 +11,13 @@ void vx_havoc(void)
   size_t len; __CPROVER_assume(len <= VX_MAXBUF); g_len = len; g_buf = malloc(len + 1); __CPROVER_assume(g_buf);
   size_t k; g_k = k; unsigned n; vx_ev_n = n; vx_thrown = 0; g_passed_k = 0; g_stop_end = 0; g_stop_notrans = 0;
 }
+/* ---- dfa_builder ---- */
+#define VX_WF_B (b_sm.N >= 1 && b_sm.N <= PH_DFA && b_sm.current_size <= b_sm.N)
+#define VX_CS_BIT(s, i) (((s)->data.data[(i) / 64] >> ((i) % 64)) & 1)
+/* merge is recursive and implements composition by in-place merging (finding D9): abstract here.  What the callers' contracts need:
+   it allocates nothing.  Ghost log of the calls. */
+unsigned g_mg_n; size_t g_mg_to, g_mg_from; bool g_mg_keep, g_mg_mark;
+void vx_merge_abs(size_t to, size_t from, bool keep_end_state, bool mark_from_as_unreachable)
+__CPROVER_requires(to < b_sm.current_size && from < b_sm.current_size)
+__CPROVER_assigns(g_mg_n, g_mg_to, g_mg_from, g_mg_keep, g_mg_mark, __CPROVER_object_upto(b_sm.the_data, sizeof(b_sm.the_data)))
+__CPROVER_ensures((__CPROVER_old(g_mg_n) < 1000 ? g_mg_n == __CPROVER_old(g_mg_n) + 1 : g_mg_n == __CPROVER_old(g_mg_n)) && g_mg_to == to && g_mg_from == from && g_mg_keep == keep_end_state && g_mg_mark == mark_from_as_unreachable);
